@@ -135,6 +135,25 @@ def squashPrepare (srcLog : List (List Nat × List Nat)) (srcNotes : List Note) 
   { st with work := ys, index := ys, entries := [],
             initial := splitPending st.head ys (blame srcLog srcNotes) }
 
+/-- `git switch <other>` / `git checkout <other>` carrying uncommitted work (hooks/switch_hooks.rs,
+    checkout_hooks.rs → repo_storage.rs:rename_working_log): the working log follows HEAD. git only
+    allows this when the file is the same at both tips, or has no local change — then it simply
+    becomes the other tip's version. -/
+def switchCarry (otherLog : List (List Nat × List Nat)) (otherNotes : List Note) (otherHead : List Nat)
+    (st : State) : State :=
+  if st.work = st.head && st.index = st.head then
+    { st with head := otherHead, index := otherHead, work := otherHead, log := otherLog, notes := otherNotes }
+  else
+    { st with log := otherLog, notes := otherNotes }
+
+/-- `git switch -m` / `git checkout -m <other>` (virtual_attribution.rs:restore_stashed_va): git
+    merges the local changes into the other tip and produces the working tree `ys`; the working
+    log's attribution is re-based through content and becomes INITIAL on the new HEAD. -/
+def switchMerge (otherLog : List (List Nat × List Nat)) (otherNotes : List Note) (otherHead ys : List Nat)
+    (st : State) : State :=
+  { head := otherHead, index := otherHead, work := ys, entries := [],
+    initial := splitPending otherHead ys (wlAuthor st), log := otherLog, notes := otherNotes }
+
 inductive ROp where
   | base (op : Op)
   | amend
@@ -144,6 +163,8 @@ inductive ROp where
   | replay (drop : Nat) (mid : List ((List Nat × List Nat) × Note))
       (src : Option (List (List Nat × List Nat) × List Note)) (news : List (List Nat))
   | squash (srcLog : List (List Nat × List Nat)) (srcNotes : List Note) (ys : List Nat)
+  | switchCarry (otherLog : List (List Nat × List Nat)) (otherNotes : List Note) (otherHead : List Nat)
+  | switchMerge (otherLog : List (List Nat × List Nat)) (otherNotes : List Note) (otherHead ys : List Nat)
   | aborted          -- an operation that aborts, fails or is a dry run
   deriving Repr
 
@@ -158,6 +179,8 @@ def rstep (r : RState) : ROp → RState
     | some (l, n) => { r with st := replayStep drop mid l n news r.st }
     | none => { r with st := replayStep drop mid r.st.log r.st.notes news r.st }
   | .squash l n ys => { r with st := squashPrepare l n ys r.st }
+  | .switchCarry l n h => { r with st := switchCarry l n h r.st }
+  | .switchMerge l n h ys => { r with st := switchMerge l n h ys r.st }
   | .aborted => r
 
 def rrun (r : RState) (ops : List ROp) : RState := ops.foldl rstep r
